@@ -341,10 +341,17 @@ class Run:
                 out[p] = (st.st_size, st.st_mtime_ns, st.st_ino)
         return out
 
-    @staticmethod
-    def plain_load(path):
-        with REAL_OPEN(path, 'rb') as f:
-            return pickle.load(f)
+    def plain_load(self, path):
+        """Read a cache file the way the library itself does (Trajectory.from_cache), with no fault armed: the
+        harness never assumes the on-disk format."""
+        from gemdat import Trajectory
+
+        armed, log, wc = self.fs.armed, self.fs.log, self.fs.write_calls
+        self.fs.armed = None
+        try:
+            return Trajectory.from_cache(path)
+        finally:
+            self.fs.armed, self.fs.log, self.fs.write_calls = armed, log, wc
 
     def resolve_fault(self, f, size_est: int):
         if not f:
@@ -604,7 +611,8 @@ class Run:
                 raise HarnessError(f'unknown damage {kind}')
         with REAL_OPEN(path, 'wb') as f:
             f.write(new)
-        # premise "unreadable": plain pickle.load must raise an Exception
+        # premise "unreadable": the library's own reader must raise an Exception on the damaged bytes.  A strict prefix
+        # ("truncated at any byte, as an interrupted write leaves it") needs no premise: the property covers it as such.
         unreadable = False
         etype = None
         try:
@@ -612,6 +620,10 @@ class Run:
         except Exception as e:  # noqa: BLE001
             unreadable = True
             etype = type(e).__name__
+        if not unreadable and kind in ('truncate', 'empty') and len(new) < n:
+            unreadable = True
+            etype = 'none_raised'
+            self.stats.probe('truncated_cache_still_loads')
         if not unreadable:
             with REAL_OPEN(path, 'wb') as f:
                 f.write(orig)
@@ -1103,6 +1115,14 @@ def plan_enumeration(tier: str, batch_seed: int, plandir: str):
             jobs += enum_scenarios(d, args_idx, size, m, chunk=24, stride=stride)
             if m == 'E1' and tier == 'thorough':
                 jobs += enum_scenarios(d, args_idx, size, 'E1', chunk=24, stride=7, kinds=('zero_tail', 'ff_tail'))
+    if tier == 'quick':
+        # one world whose coordinate array exceeds 1 MiB (cache written in several write() calls): a few offsets only
+        big = worlds.gen_dataset_params(rng, fmt='lammps', big=True)
+        big['nf'], big['na'], big['species'] = 6000, 8, (big['species'] * 8)[:8]
+        bsize = cache_size_of(big, 0, os.path.join(plandir, 'big'))
+        info['large_world'] = {'dataset': big, 'cache_bytes': bsize, 'stride': bsize // 7, 'exhaustive': False}
+        jobs += enum_scenarios(big, 0, bsize, 'E1', chunk=2, stride=bsize // 7)
+        jobs += enum_scenarios(big, 0, bsize, 'E2', chunk=2, stride=bsize // 4)
     if tier == 'thorough':
         # (a) real process death on a sample of offsets of the first world per format
         n_rd = 0
